@@ -5,15 +5,8 @@
 //!               [--replays-dir DIR] [--known FILE] [--no-evidence]
 //! exit 0: property held on everything explored; 1: VIOLATION printed; 2: infrastructure problem
 
-mod api;
-mod conv;
-mod frames;
-mod engine;
-mod gen;
-mod oracle;
-mod props;
-
-use engine::*;
+use vcheck::engine::*;
+use vcheck::props;
 use serde_json::{json, Value};
 use std::path::{Path, PathBuf};
 use std::time::Instant;
